@@ -95,16 +95,27 @@ def mirror_tokens(text, names):
 
 _RE_UNIQ = re.compile(r"_[a-z][a-z_]*?\d+_")
 _RE_INC = re.compile(r"^\s*(#\s*include\b.*|import\s.*|from\s.*\simport\s.*)$")
+_RE_B85 = re.compile(r"^\s+'[0-9A-Za-z!#$%&()*+\-;<=>?@^_`{|}~]{20,}'$")
+NORMS = "buim"  # blank lines, unique names, include/import lines, pickled model (py)
 
 
 def norm_hashes(text):
-    """digests of the text under three normalisations; used only to CLASSIFY a digest conflict (signature), never to judge"""
+    """digests of the text under every combination of four normalisations; used only to CLASSIFY a digest conflict
+    (which kind of line differs -> signature), never to judge"""
     lines = text.split("\n")
-    nb = [l for l in lines if l.strip() != ""]
-    nu = [_RE_UNIQ.sub("_U_", l) for l in lines]
-    ni = [l for l in lines if not _RE_INC.match(l)]
-    na = [_RE_UNIQ.sub("_U_", l) for l in nb if not _RE_INC.match(l)]
-    return {"b": _sha("\n".join(nb))[:16], "u": _sha("\n".join(nu))[:16], "i": _sha("\n".join(ni))[:16], "a": _sha("\n".join(na))[:16]}
+    res = {}
+    for mask in range(1, 16):
+        ls = lines
+        if mask & 1:
+            ls = [l for l in ls if l.strip() != ""]
+        if mask & 2:
+            ls = [_RE_UNIQ.sub("_U_", l) for l in ls]
+        if mask & 4:
+            ls = [l for l in ls if not _RE_INC.match(l)]
+        if mask & 8:
+            ls = [l for l in ls if not _RE_B85.match(l)]
+        res[str(mask)] = _sha("\n".join(ls))[:12]
+    return res
 
 
 def rle(flags):
@@ -375,7 +386,7 @@ def run_scenario(sc, work, seed):
                         "key": _sha(json.dumps([sc["sid"], optkey, tn, closure_hash(t, src_cache)]))[:32],
                         "digest": "!exc:" + type(exc).__name__, "exc": "".join(traceback.format_exception_only(type(exc), exc))[-300:],
                         "lim": {"on": 0, "obs": 0, "n": 0, "eb": 0, "ea": 0, "step": 0, "raw": [], "kept": 0},
-                        "uq": {"obs": 0, "ub": 0, "un": 0, "exp": 0}, "nh": {"b": "", "u": "", "i": "", "a": ""},
+                        "uq": {"obs": 0, "ub": 0, "un": 0, "exp": 0}, "nh": {},
                     })
                     state["ord"] += 1
         prev = cur
@@ -748,31 +759,49 @@ def execute(ctx, scenarios, seeds, tag):
 TL_FIELDS = ("id", "key", "digest", "lim", "uq")
 
 
-def tok_diff_class(a, b):
-    tags = set()
-    sm = difflib.SequenceMatcher(a=[json.dumps(x) for x in a], b=[json.dumps(x) for x in b], autojunk=False)
-    for op, i1, i2, j1, j2 in sm.get_opcodes():
-        if op != "equal":
-            tags.update(x[0] for x in a[i1:i2])
-            tags.update(x[0] for x in b[j1:j2])
-    return "+".join(sorted(tags)) or "none"
+NORM_NAMES = {1: "blank-lines", 2: "unique-names", 4: "include-list", 8: "pickled-model"}
 
 
-def diff_class(e1, e2):
+def mirror_parts(toks):
+    """leading empty lines, trailing empty lines, body values per line tag (the mirror template fixes the order of the tags)"""
+    i, j = 0, len(toks)
+    while i < j and toks[i] == ["E"]:
+        i += 1
+    while j > i and toks[j - 1] == ["E"]:
+        j -= 1
+    body = {}
+    for t in toks[i:j]:
+        body.setdefault(t[0], []).append(t[1:])
+    return i, len(toks) - j, body
+
+
+def diff_classes(e1, e2):
+    """which kinds of lines differ between two files with the same key -> list of classes (one signature each)"""
     if e1["digest"].startswith("!exc") or e2["digest"].startswith("!exc"):
-        return "exception"
+        return ["exception"]
     if "toks" in e1 and "toks" in e2:
-        return "lines:" + tok_diff_class(e1["toks"], e2["toks"])
+        l1, t1, b1 = mirror_parts(e1["toks"])
+        l2, t2, b2 = mirror_parts(e2["toks"])
+        res = []
+        if (l1, t1) != (l2, t2) or b1.get("E") != b2.get("E"):
+            res.append("blank-lines")
+        if b1.get("L") != b2.get("L") or b1.get("D") != b2.get("D"):
+            res.append("unique-names")
+        elif b1.get("M") != b2.get("M"):
+            res.append("unique-names:imported-module")
+        if b1.get("I") != b2.get("I") or b1.get("S") != b2.get("S"):
+            res.append("include-list")
+        if b1.get("T") != b2.get("T") or b1.get("?") != b2.get("?") or not res:
+            res.append("other")
+        return res
     h1, h2 = e1["nh"], e2["nh"]
-    if h1["b"] == h2["b"]:
-        return "blank-lines"
-    if h1["u"] == h2["u"]:
-        return "unique-names"
-    if h1["i"] == h2["i"]:
-        return "include-list"
-    if h1["a"] == h2["a"]:
-        return "blank+unique+include"
-    return "other"
+    best = None
+    for mask in range(1, 16):
+        if h1.get(str(mask)) == h2.get(str(mask)) and (best is None or bin(mask).count("1") < bin(best).count("1")):
+            best = mask
+    if best is None:
+        return ["other"]
+    return [NORM_NAMES[b] for b in (1, 2, 4, 8) if best & b]
 
 
 def describe(sc, ev):
@@ -781,13 +810,54 @@ def describe(sc, ev):
         ev["run"], r["d"], r.get("lctx"), r.get("gen"), r.get("omit"), len(r["types"]) if r.get("types") else -1, ev["ord"], ev["seed"])
 
 
+def validate_batches(ctx, batches):
+    """like tlc.validate_traces, but with caller-defined batch boundaries; counters are updated in the calling thread"""
+    import concurrent.futures
+    from .. import tlc
+    from ..core import MachineryFailure, NCPU
+
+    if not batches:
+        return {}
+    tdir = ctx.scratch / ("tr-GenSiblingsTrace-%d" % len(list(ctx.scratch.glob("tr-GenSiblingsTrace-*"))))
+    tdir.mkdir()
+    cfg = tlc.write_cfg(tdir / "t.cfg")
+    jobs = []
+    for bi, b in enumerate(batches):
+        p = tdir / ("b%05d.ndjson" % bi)
+        with open(p, "w") as f:
+            for r in b:
+                f.write(json.dumps(r, separators=(",", ":")) + "\n")
+        jobs.append((p, len(b)))
+
+    def one(job):
+        return tlc.run_tlc(tlc.SPECS / "GenSiblingsTrace.tla", cfg, ctx.scratch, workers=1, timeout=1800, env={"TRACE_FILE": str(job[0])}, xmx="3g"), job
+
+    rej = {}
+    with concurrent.futures.ThreadPoolExecutor(max_workers=NCPU) as ex:
+        for res, (p, n) in ex.map(one, jobs):
+            if not res.ok:
+                raise MachineryFailure("trace validation GenSiblingsTrace failed on %s: %s %s\n%s" % (p.name, res.error, res.violated, res.out[-3000:]))
+            ctx.cov["states"] += res.distinct
+            ctx.cov["transitions"] += res.generated
+            nrej = 0
+            for ln in res.out.splitlines():
+                m = tlc._RE_REJECT.match(ln)
+                if m:
+                    rid = m.group(1) if m.group(1) is not None else int(m.group(2))
+                    rej.setdefault(rid, m.group(3))
+                    nrej += 0 if m.group(3).startswith("drift.") else 1
+            ctx.validated(n - nrej)
+    shutil.rmtree(tdir, ignore_errors=True)
+    return rej
+
+
 def judge(ctx, scen_by_sid, events_by_sid, seeds_by_sid):
     """T-layer verdicts for all events; returns (rejected {event id: clause}, events by id)."""
-    from .. import tlc
     from ..core import MachineryFailure
 
-    recs, by_id = [], {}
+    by_id = {}
     batches, curb = [], []
+    # a batch holds whole scenarios (keys never cross scenarios), so the memo of the T-layer sees every pair of a key
     for sid in sorted(events_by_sid):
         evs = events_by_sid[sid]
         if curb and len(curb) + len(evs) > ctx.pick(1500, 2500):
@@ -799,24 +869,7 @@ def judge(ctx, scen_by_sid, events_by_sid, seeds_by_sid):
             curb.append({k: ev[k] for k in TL_FIELDS})
     if curb:
         batches.append(curb)
-    rej = {}
-    # each batch holds whole scenarios (keys never cross scenarios), so the memo of the T-layer sees every pair
-    for b in batches:
-        recs.extend(b)
-    big = max(len(b) for b in batches) if batches else 0
-    if big > 6000:
-        raise MachineryFailure("a single scenario produced %d events" % big)
-    # validate_traces splits by count; keep scenario boundaries by padding: run batch by batch
-    import concurrent.futures
-
-    def one(b):
-        return tlc.validate_traces(ctx, "GenSiblingsTrace", b, batch=len(b) + 1, parallel=1)
-
-    from ..core import NCPU
-
-    with concurrent.futures.ThreadPoolExecutor(max_workers=NCPU) as ex:
-        for r in ex.map(one, batches):
-            rej.update(r)
+    rej = validate_batches(ctx, batches)
     first = {}
     ndrift = {}
     for i in sorted(by_id):
@@ -830,14 +883,14 @@ def judge(ctx, scen_by_sid, events_by_sid, seeds_by_sid):
             raise MachineryFailure("harness produced an ill-formed record: %r" % ({k: ev[k] for k in TL_FIELDS},))
         if clause == "sib.digest":
             ref = first[ev["key"]]
-            cls = diff_class(ref, ev)
-            sig = "C10|sib.digest|%s|%s|%s" % (ev["lang"], ev["tpl"], cls)
-            what = ("%s file of %s (%s templates) differs between %s and %s of one scenario [difference: %s]%s"
-                    % (ev["lang"], ev["type"], ev["tpl"], describe(sc, ref), describe(sc, ev), cls,
-                       (" " + (ev.get("exc") or ref.get("exc") or "")) if cls == "exception" else ""))
-            case = {"scenario": sc, "seeds": sorted(set(seeds_by_sid.get(ev["sid"], [ev["seed"]]))),
-                    "pair": [{k: v for k, v in e.items() if k in ("run", "ord", "type", "digest", "seed", "toks", "lim", "uq")} for e in (ref, ev)]}
-            ctx.violation(sig, what, case)
+            for cls in diff_classes(ref, ev):
+                sig = "C10|sib.digest|%s|%s|%s" % (ev["lang"], ev["tpl"], cls)
+                what = ("%s file of %s (%s templates) differs between %s and %s of one scenario [kind of lines that differ: %s]%s"
+                        % (ev["lang"], ev["type"], ev["tpl"], describe(sc, ref), describe(sc, ev), cls,
+                           (" " + (ev.get("exc") or ref.get("exc") or "")) if cls == "exception" else ""))
+                case = {"scenario": sc, "seeds": sorted(set(seeds_by_sid.get(ev["sid"], [ev["seed"]]))),
+                        "pair": [{k: v for k, v in e.items() if k in ("run", "ord", "type", "digest", "seed", "toks", "lim", "uq")} for e in (ref, ev)]}
+                ctx.violation(sig, what, case)
         elif clause.startswith("drift."):
             k = "%s %s/%s" % (clause, ev["lang"], ev["tpl"])
             ndrift.setdefault(k, [0, ev])
@@ -943,7 +996,7 @@ def run(ctx):
     seeds_a = [11 + 7 * i for i in range(16)]
     ev_a = execute(ctx, all_sc, seeds_a, "a")
     part_b = [sc for sc in all_sc if sc["sid"] % ctx.pick(5, 4) == 0]
-    ev_b = execute(ctx, part_b, [5 + 13 * i for i in range(16)][::-1], "b")
+    ev_b = execute(ctx, part_b, [1000 + 3 * i for i in range(16)], "b")
     events, seeds_by_sid = {}, {}
     for src in (ev_a, ev_b):
         for s, evs in src.items():
@@ -995,15 +1048,23 @@ def run(ctx):
 
     # ---- 7. binding self-tests ----------------------------------------------------------------------------------------------
     some = next(v for k, v in sorted(compared.items()) if not v[0]["digest"].startswith("!exc"))
-    good = {k: some[0][k] for k in TL_FIELDS}
-    bad = dict({k: some[1][k] for k in TL_FIELDS})
-    bad["digest"] = ("0" if bad["digest"][0] != "0" else "1") + bad["digest"][1:]
-    good["id"], bad["id"] = 0, 1
-    r = tlc.validate_traces(ctx, "GenSiblingsTrace", [good, bad])
-    ctx.cov["traces_validated_against_impl"] -= 1
+    quiet = {"lim": {"on": 0, "obs": 0, "n": 0, "eb": 0, "ea": 0, "step": 0, "raw": [], "kept": 0}, "uq": {"obs": 0, "ub": 0, "un": 0, "exp": 0}}
+    good = dict({k: some[0][k] for k in TL_FIELDS}, id=0, **quiet)
+    bad = dict(good, id=1, digest=("0" if good["digest"][0] != "0" else "1") + good["digest"][1:])
+    n0 = ctx.cov["traces_validated_against_impl"]
+    r = validate_batches(ctx, [[good, bad]])
+    ctx.cov["traces_validated_against_impl"] = n0
     ctx.selftest("a flipped digest of a recorded genfile event is rejected by GenSiblingsTrace (sib.digest)", r.get(1) == "sib.digest" and 0 not in r)
-    msc = next(scen[s] for s in sorted(scen) if scen[s]["kind"] == "model" and s not in p_rejected_sids and not compare_expected(ctx, scen[s], events[s], rej))\
-        if any(scen[s]["kind"] == "model" and s not in p_rejected_sids and not compare_expected(ctx, scen[s], events[s], rej) for s in scen) else None
+    carry = dict(good, id=0, lim=dict(quiet["lim"], on=1, obs=1, n=1, eb=1))
+    r = validate_batches(ctx, [[carry]])
+    ctx.cov["traces_validated_against_impl"] = n0
+    ctx.selftest("a limiter counter that is not zero at the start of a file is noticed by the I-layer clauses (drift.limiter_carry)",
+                 r.get(0) == "drift.limiter_carry")
+    msc = None
+    for s_ in sorted(scen):
+        if scen[s_]["kind"] == "model" and s_ not in p_rejected_sids and not compare_expected(ctx, scen[s_], events[s_], rej):
+            msc = scen[s_]
+            break
     if msc is not None:
         mm = compare_expected(ctx, msc, events[msc["sid"]], rej, perturb=(0, 0))
         ctx.selftest("a perturbed expected file of a model history is reported by the spec->code comparison", bool(mm))
